@@ -230,11 +230,10 @@ def rule_fresh_locals(ctx):
               "thread-local state reachable from dump(): %s" % tl[:3], nontrivial=False)
 
 
-def rule_config_preserved(ctx):
+def rule_config_preserved(ctx, R="C19/config-preserved", only=None):
     """configuration fields — those the public setters (functions not reachable from dump) store to — must survive a dump unchanged:
     anything reachable from dump that stores to one, or takes it by &mut (Option::take, mem::take, push, clear ...), makes the next
     dump run with a different configuration than the caller set"""
-    R = "C19/config-preserved"
     prog = ctx.prog
     direct, trans = touched_fields(prog)
     reach = prog.reachable([DUMP])
@@ -248,6 +247,8 @@ def rule_config_preserved(ctx):
     ctx.analysed["configuration_fields"] = {k: sorted(v) for k, v in sorted(config.items())}
     ctx.floor(R, "configuration fields (stored by setters outside dump)", len(config), 6)
     for fld in sorted(config):
+        if only is not None and fld not in only:
+            continue
         writers = []
         for fn in sorted(reach):
             for body in prog.by_short.get(fn, ()):
